@@ -346,29 +346,36 @@ def flag_switches(body, pred):
 
 
 def latch_flags(body, after_blocks):
-    """bool locals used as a one-shot latch: initialised false, set `true` in a block reachable from `after_blocks`, and
-    tested by a switch. Returns {local: (set_blocks, true_edges, false_edges)} — discovered by role, not by name."""
+    """bool locals used as a one-shot latch: initialised to one value, set to the other (`fired`) in a block reachable from
+    `after_blocks`, and tested by a switch. Both polarities (`done = false .. done = true`, `allowed = true .. allowed = false`).
+    Returns {local: (set_blocks, fired_edges, unfired_edges)} — discovered by role, not by name."""
     out = {}
     after = body.reachable(list(after_blocks)) if after_blocks else set()
     for l, d in enumerate(body.locals):
         if d["ty"] != "bool" or l == 0:
             continue
-        sets = [x for x in assigns_const_to(body, l, lambda c: c.get("bool") is True) if x in after]
-        inits = assigns_const_to(body, l, lambda c: c.get("bool") is False)
-        if not sets or not inits:
-            continue
-        tr, fl = [], []
-        for sbb, neg in switches_on(body, l):
-            e = bool_edges(body, sbb)
-            if e is None:
+        for fired in (True, False):
+            sets = [x for x in assigns_const_to(body, l, lambda c: c.get("bool") is fired) if x in after]
+            inits = [x for x in assigns_const_to(body, l, lambda c: c.get("bool") is (not fired)) if x not in after or x not in sets]
+            if not sets or not inits or l in out:
                 continue
-            t, f = e
-            if neg:
-                t, f = f, t
-            tr.append((sbb, t))
-            fl.append((sbb, f))
-        if tr:
-            out[l] = (sets, tr, fl)
+            # an assignment of the initial value reachable from the firing point would re-arm the latch
+            if any(x in after for x in inits):
+                continue
+            tr, fl = [], []
+            for sbb, neg in switches_on(body, l):
+                e = bool_edges(body, sbb)
+                if e is None:
+                    continue
+                t, f = e
+                if neg:
+                    t, f = f, t
+                if not fired:
+                    t, f = f, t
+                tr.append((sbb, t))
+                fl.append((sbb, f))
+            if tr:
+                out[l] = (sets, tr, fl)
     return out
 
 
